@@ -57,7 +57,7 @@ CLAIMED = {
    text='Coq theorems over ALL histories of births (arbitrary slots), death requests, death resolution, removal, time steps and late state registration: '
         'dense never-reused identifiers, alignment of every registered array with the id space across reallocation boundaries, duplicate-free active set, '
         'growth preserves old values and applies defaults, death permanence, same-step / next-step execution of death requests, deaths balance; the '
-        'late-request accounting gap is proved as a refutation witness. Growth arithmetic and the death-due comparison are regenerated from arrays.py/people.py; '
+        'recorded flow of deaths (count of ti_dead == ti over the active agents) is exactly the deaths carried out in the step, hence alive before = alive after + recorded deaths for a step starting with living agents (the late-request accounting gap found earlier was repaired in /repo, b356480). Growth arithmetic and the death-due comparison are regenerated from arrays.py/people.py; '
         'op sequences on a real People are compared with the model in Coq (outputs + full snapshot), and every step of real runs is probed.',
    note='Trusted: Coq kernel, translator (expression targets + shape pins), harness. NaN is modelled by a sentinel rational (nan_free hypothesis in the timing theorems). '
         'Only the 5 attached arrays + core arrays are snapshotted in the op-level tie; all registered states are checked for alignment by the run-level probe.',
